@@ -513,7 +513,7 @@ func vC14DuRunInBubble(t *testing.T, c *vh.Case, sc vC14DuScn, target int) *vC14
 }
 
 func TestVerif_C14_dual(t *testing.T) {
-	vh.Run(t, vh.Spec{Prop: "C14", Unit: "dual", Quick: 40, Thorough: 1500, CostMs: 330,
+	vh.Run(t, vh.Spec{Prop: "C14", Unit: "dual", Quick: 40, Thorough: 1500, CostMs: 230,
 		Rule: "PRNG dual.DHT over one fake host (WAN client/server, auto-refresh on/off, 6-30 peers half public with a connection / half private, 30% silent/failing/dead, both inner DHTs GC-ing every 0.2-1.1 vs over journaling stores) with 1-5 dual operations and 0-5 connectedness events; reference run counts boundary events, re-runs Close immediately after construction, at 2 events on a background loop's stack and 2 PRNG indices (thorough: all on small scenarios, <= 48); non-trivial = Close while an operation was in flight or on a background loop's boundary event",
 		Clauses: []string{"baseline-clean", "close-returns-in-bound", "no-loop-after-close", "close-again-returns", "op-returns", "no-goroutine-after-2min", "no-subscription-left", "stores-quiet-after-close"}},
 		func(c *vh.Case) {
